@@ -145,6 +145,19 @@ def run(ck):
                 pr = {i for i, l in enumerate(t.split("\n")) if l.strip().startswith("struct")}
                 ws.append(expected_from_model(mo, pr))
             want.append(" / ".join(ws))
+    # random multi-file sets: every file must behave as if compiled alone with the command-line symbols
+    pool = [file_of(seq) for seq in itertools.product(["#define A", "#undef A", "#define B", "#if A", "#if !B", "#else", "#endif", "struct S%d {}"], repeat=4)]
+    good = [t for t, mo in zip(pool, core.run_model("prep", ["prep A " + hx(t) for t in pool])) if mo.startswith("acc")]
+    for _ in range(600 if ck.tier == "quick" else 6000):
+        order = [rng.choice(good) for _ in range(rng.choice([2, 3]))]
+        s = rng.choice(["-", "A", "B", "A,B"])
+        multi.append("prep %s %s" % (s, " ".join(hx(t) for t in order)))
+        singles = core.run_model("prep", ["prep %s %s" % (s, hx(t)) for t in order])
+        ws = []
+        for t, mo in zip(order, singles):
+            pr = {i for i, l in enumerate(t.split("\n")) if l.strip().startswith("struct")}
+            ws.append(expected_from_model(mo, pr))
+        want.append(" / ".join(ws))
     om = core.run_impl("prep", multi)
     ck.compare("multi-file", multi, want, om, classify=lambda c, mo, oo: ("leak", {}))
     ck.extra["exhaustive"] = True
